@@ -37,7 +37,7 @@ class Undecided(EngineAbort):
 
 
 class Obligation:
-    __slots__ = ("name", "status", "model", "path", "backend", "time", "detail", "size", "kind", "_z3model", "witness")
+    __slots__ = ("name", "status", "model", "path", "backend", "time", "detail", "size", "kind", "_z3model", "witness", "vacuous")
 
     def __init__(self, name, status, model=None, path=None, backend="z3", time=0.0, detail=None, size=0,
                  kind="post"):
@@ -50,11 +50,12 @@ class Obligation:
         self.detail = detail
         self.size = size
         self.kind = kind
+        self.vacuous = False
 
     def to_json(self):
         return {"name": self.name, "status": self.status, "path": self.path, "backend": self.backend,
                 "time_s": round(self.time, 4), "detail": self.detail, "model": self.model, "size": self.size,
-                "kind": self.kind}
+                "kind": self.kind, "vacuous": self.vacuous}
 
 
 class Forall:
@@ -64,10 +65,22 @@ class Forall:
     (two rounds); as a goal it is skolemised.  Keeps queries quantifier free.
     """
 
+    _ctr = [0]
+
     def __init__(self, sorts, body, name=""):
         self.sorts = list(sorts)
-        self.body = body
         self.name = name
+        # The body is evaluated NOW on placeholder constants: closures that read mutable store state must see
+        # the state at the time the formula is stated, not at the time it is instantiated.
+        Forall._ctr[0] += 1
+        self.bound = [z3.Const(f"?{name or 'x'}{Forall._ctr[0]}_{i}", s) for i, s in enumerate(self.sorts)]
+        f = body(*self.bound)
+        if isinstance(f, bool):
+            f = z3.BoolVal(f)
+        self.formula = f
+
+    def body(self, *terms):
+        return z3.substitute(self.formula, *zip(self.bound, terms))
 
 
 def _collect_terms(exprs, sorts):
@@ -299,6 +312,12 @@ class Engine:
             if r == z3.unsat:
                 ob = Obligation(name, "discharged", path=path, time=time.time() - t0, detail=detail, size=size,
                                 kind=kind)
+                # vacuity guard: is the path itself (pc + instantiated hypotheses) satisfiable?
+                s.pop()
+                s.push()
+                for f in insts:
+                    s.add(f)
+                ob.vacuous = self._check() == z3.unsat
             elif r == z3.sat:
                 m = s.model()
                 ob = Obligation(name, "refuted", model=model_to_json(m), path=path, time=time.time() - t0,
